@@ -18,6 +18,7 @@ import ast
 import json
 import os
 import random
+import re
 from pathlib import Path
 
 from vp import coqfmt as q
@@ -33,7 +34,8 @@ TRUSTED = [
     "release_tasks_to_run, spawn_on_output, remove_if_complete).",
 ]
 ASSUMES = [
-    "Gregorian date cycling from 2000-01-01 (P1D), UTC; one flow (plus no-flow triggers); no suicide triggers, xtriggers, "
+    "Gregorian date cycling from 2000-01-01 (P1D), UTC; one flow (plus no-flow triggers; iterations in which flows merge are "
+    "checked by the oracle only); no suicide triggers, xtriggers, "
     "reload or `cylc set --out=expired`; jobs are simulated by the harness and job preparation never stays pending",
 ]
 
@@ -134,7 +136,7 @@ def gen_workflow(r: random.Random) -> dict:
            "runahead": r.choice([0, 1, 1, 2, 3]), "queue_limit": r.choice([None, None, 1, 2]),
            "retries": {t: "2*PT1H" for t in etasks if r.random() < 0.3},
            "fail_rate": r.choice([0.0, 0.0, 0.3, 0.6]), "customs": {}, "seed": r.randrange(1 << 20),
-           "disorder": 0.0, "max_ticks": 40}
+           "disorder": 0.0, "max_ticks": 30}
     return scn
 
 
@@ -148,13 +150,14 @@ def exp_time(scn, day, name):
     return day * DAY + OFFSEC[scn["expire"][name]]
 
 
-def ref_children(scn, day, name, out):
-    """graph children of output `out` of instance (day, name): the reference semantics of the generated graph"""
+def ref_children(scn, day, name, out, clip=True):
+    """graph children of output `out` of instance (day, name): the reference semantics of the generated graph
+    (clip: only the children inside the workflow's cycle range, i.e. those that can exist)"""
     res = set()
     for e in scn["edges"]:
         if e["p"] == name and e["out"] == out:
             cd = day - e["off"]
-            if 0 <= cd < scn["ncycles"]:
+            if 0 <= cd and (cd < scn["ncycles"] or not clip):
                 res.add((cd, e["c"]))
     return sorted(res)
 
@@ -177,7 +180,7 @@ def expiry_times(scn):
 
 def gen_clock(r: random.Random, scn, kind=None, k=None, delta=None) -> list:
     ts = expiry_times(scn)
-    n = 48
+    n = 24
     kind = kind or r.choice(["ramp", "ramp", "cross", "cross", "cross", "exact", "past", "never", "random"])
     lo = ts[0] - 7200
     if kind == "ramp":
@@ -208,9 +211,9 @@ def gen_ops(r: random.Random, scn) -> list:
     inst = instances(scn)
     einst = [i for i in inst if i[1] in scn["expire"]]
     for _ in range(r.choice([0, 0, 1, 1, 2, 3])):
-        kind = r.choice(["hold", "hold", "trigger", "trigger", "trigger", "trigger-none"])
+        kind = r.choice(["hold", "hold", "hold", "trigger", "trigger", "trigger", "trigger-none"])
         d, t = r.choice(einst if r.random() < 0.8 else inst)
-        tick = r.randint(0, 12)
+        tick = r.choice([0, 0, 1, 2, r.randint(0, 12)]) if kind == "hold" else r.randint(0, 12)
         tid = f"{point_str(d)}/{t}"
         if kind == "hold":
             ops.append({"tick": tick, "cmd": "hold", "args": {"tasks": [tid]}})
@@ -229,10 +232,24 @@ def finish(scn):
     return scn
 
 
+def keep_alive(scn, upto):
+    """the driver stops stepping a quiet workflow; a no-op operation at tick `upto` keeps it going until then"""
+    scn["ops"] = [o for o in scn["ops"] if o["cmd"] != "x_noop"] + [{"tick": upto, "cmd": "x_noop", "args": {}}]
+    scn["ops"].sort(key=lambda o: o["tick"])
+    return scn
+
+
+def last_crossing(scn) -> int:
+    """index of the last iteration at which the clock moves"""
+    ck = scn["clock"]
+    return max([i for i in range(1, len(ck)) if ck[i] != ck[i - 1]] or [0])
+
+
 def gen_scenario(r: random.Random) -> dict:
     scn = gen_workflow(r)
     scn["clock"] = gen_clock(r, scn)
     scn["ops"] = gen_ops(r, scn)
+    keep_alive(scn, min(last_crossing(scn), 12) + 3)
     return finish(scn)
 
 
@@ -243,7 +260,7 @@ def witness_successor() -> dict:
     scn = {"tasks": ["a", "b"], "ncycles": 6, "expire": {"a": ""}, "succ_opt": {"a": True, "b": False},
            "edges": [{"p": "a", "out": "expired", "off": 0, "c": "b"}], "solo": ["a"], "runahead": 1,
            "queue_limit": None, "retries": {}, "fail_rate": 0.0, "customs": {}, "seed": 1, "disorder": 0.0,
-           "max_ticks": 40, "clock": [30 * DAY] * 48, "ops": []}
+           "max_ticks": 30, "clock": [30 * DAY] * 24, "ops": []}
     return finish(scn)
 
 
@@ -254,10 +271,26 @@ def witness_basic() -> dict:
            "edges": [{"p": "a", "out": "expired", "off": 0, "c": "d"}, {"p": "a", "out": "succeeded", "off": 0, "c": "b"},
                      {"p": "b", "out": "expired", "off": 0, "c": "c"}],
            "solo": ["a"], "runahead": 3, "queue_limit": 1, "retries": {}, "fail_rate": 0.0, "customs": {}, "seed": 3,
-           "disorder": 0.0, "max_ticks": 40,
-           "clock": [-7200 + 1800 * i for i in range(48)],
+           "disorder": 0.0, "max_ticks": 30,
+           "clock": [-7200 + 1800 * i for i in range(24)],
            "ops": [{"tick": 0, "cmd": "hold", "args": {"tasks": ["20000102/a"]}},
                    {"tick": 5, "cmd": "force_trigger_tasks", "args": {"tasks": ["20000101/a"], "flow": ["all"]}}]}
+    return finish(scn)
+
+
+def witness_edges() -> dict:
+    """Boundary and flag cases in one run: a(PT1H) is held and parentless; the clock stands one second before
+    its expiry time for 8 iterations (nothing expires), then exactly at it (the held task expires: `>=`);
+    meanwhile b has succeeded and spawned c, which is clock-expire with a zero offset and already past its
+    time: c expires while its other prerequisite is unsatisfied and is kept (`expired` is not optional for c);
+    when a expires its :expired child c is already in the pool."""
+    scn = {"tasks": ["a", "b", "c"], "ncycles": 2, "expire": {"a": "PT1H", "c": ""},
+           "succ_opt": {"a": True, "b": False, "c": False},
+           "edges": [{"p": "a", "out": "expired", "off": 0, "c": "c"}, {"p": "b", "out": "succeeded", "off": 0, "c": "c"}],
+           "solo": ["a", "b"], "runahead": 1, "queue_limit": None, "retries": {}, "fail_rate": 0.0, "customs": {},
+           "seed": 5, "disorder": 0.0, "max_ticks": 30, "clock": [3599] * 8 + [3600] * 16,
+           "ops": [{"tick": 0, "cmd": "hold", "args": {"tasks": ["20000101/a", "20000102/a"]}},
+                   {"tick": 13, "cmd": "x_noop", "args": {}}]}
     return finish(scn)
 
 
@@ -309,7 +342,8 @@ def compact(trace) -> dict:
         if k == "expire_begin":
             cur = {"it": e["it"], "tick": tick, "now": e["now"], "before": e["tasks"], "to_hold": e["to_hold"],
                    "hold_point": e["hold_point"], "gone": sorted(ever - {tuple(t["id"]) for t in e["tasks"]}),
-                   "evs": [], "after": None, "rts": None, "released": None, "submit": [], "final": None, "odd": []}
+                   "evs": [], "after": None, "rts": None, "released": None, "submit": [], "final": None, "odd": [],
+                   "skip": []}
             iters.append(cur)
             phase = "pass"
             soo = []
@@ -367,6 +401,8 @@ def compact(trace) -> dict:
                 cur["evs"].append(["remove", e["t"]["id"]])
             elif k == "remove_noop":
                 cur["odd"].append(f"remove of {e['id']} had no effect")
+            elif k == "merge":
+                cur["skip"].append(f"flow merge into {e['id']} (not modelled)")
         elif phase == "rts-wait":
             if k == "rts_begin":
                 cur["rts"] = {x: e[x] for x in ("paused", "stop", "reload", "auto")}
@@ -433,12 +469,11 @@ def c_cexpr(nb, text):
 
 
 def c_task(nb, t):
-    comp = c_cexpr(nb, t["comp"])
-    if comp is None or t.get("transient") or t.get("xseq"):
+    if t.get("transient") or t.get("xseq"):
         raise ValueError("outside fragment")
-    return q.capp("mkTask", q.cN(nb.iid(t["id"])), STATUSES[t["status"]], q.cbool(t["manual"]), q.cbool(t["held"]),
+    return q.capp("tk", "e", q.cN(nb.iid(t["id"])), STATUSES[t["status"]], q.cbool(t["manual"]), q.cbool(t["held"]),
                   q.cbool(t["queued"]), q.cbool(t["runahead"]), q.copt(t["expire"], q.cz), q.cbool(t["has_flow"]),
-                  q.cbool(t["flow_wait"]), q.clist(q.cN(nb.out(o)) for o in t["outputs"]), comp,
+                  q.cbool(t["flow_wait"]), q.clist(q.cN(nb.out(o)) for o in t["outputs"]),
                   q.cbool(t["inq"]), q.cbool(t["wojp"]), q.cbool(t["trig"]))
 
 
@@ -473,7 +508,7 @@ def canon_events(nb, evs):
     return out
 
 
-def c_env(nb, scn, info, it):
+def c_env(nb, scn, info):
     inst = instances(scn)
     ch = []
     for d, t in inst:
@@ -491,19 +526,23 @@ def c_env(nb, scn, info, it):
         if c is None:
             raise ValueError("completion expression outside fragment")
         cm.append(q.cpair(q.cN(nb.rid(d, t)), c))
+    return q.capp("mkEnv", q.clist(ch), q.clist(nx), q.clist(ex), q.clist(cm), "[]")
+
+
+def c_hold(nb, scn, it):
     hp = it["hold_point"]
     held = {tuple(x) for x in it["to_hold"]}
-    hold = [q.cN(nb.rid(d, t)) for d, t in inst
-            if (20000101 + d, t) in held or (hp is not None and 20000101 + d > hp)]
-    return q.capp("mkEnv", q.clist(ch), q.clist(nx), q.clist(ex), q.clist(cm), q.clist(hold))
+    return q.clist(q.cN(nb.rid(d, t)) for d, t in instances(scn)
+                   if (20000101 + d, t) in held or (hp is not None and 20000101 + d > hp))
 
 
 def case_term(scn, res):
     nb = Num(scn)
     ks = []
     try:
+        env = c_env(nb, scn, res["info"])
         for it in res["iters"]:
-            if it["after"] is None or it["odd"]:
+            if it["after"] is None or it["odd"] or it["skip"]:
                 return None
             has_rel = it["final"] is not None and it["released"] is not None
             after = it["after"]
@@ -515,19 +554,22 @@ def case_term(scn, res):
                         subs.append(q.capp("EvSubmit", q.cN(nb.iid(t["id"])), STATUSES[t["status"]]))
                 if len(subs) != len(sub_ids):
                     subs.append("(EvQueue 0%N)")     # a job for a task that was not in the pool: never equal
+            t_before = q.clist(c_task(nb, t) for t in it["before"])
+            t_after = q.clist(c_task(nb, t) for t in after)
+            t_final = q.clist(c_task(nb, t) for t in (it["final"] or after))
             ks.append(q.capp(
-                "mkCkpt", c_env(nb, scn, res["info"], it), q.cz(it["now"]),
-                q.clist(c_task(nb, t) for t in it["before"]),
+                "mkCkpt", c_hold(nb, scn, it), q.cz(it["now"]), t_before,
                 q.clist(q.cN(nb.iid(i)) for i in it["gone"]),
-                q.clist(c_event(nb, e) for e in canon_events(nb, it["evs"])),
-                q.clist(c_task(nb, t) for t in after),
+                q.clist(c_event(nb, e) for e in canon_events(nb, [
+                    e for e in it["evs"] if not (e[0] == "none" and e[2][0] - 20000101 >= scn["ncycles"])])),
+                "None" if t_after == t_before else f"(Some {t_after})",
                 q.cbool(has_rel),
                 q.clist(q.cN(nb.iid(i)) for i in (it["released"] or [])),
                 q.clist(subs),
-                q.clist(c_task(nb, t) for t in (it["final"] or []))))
+                "None" if t_final == t_after else f"(Some {t_final})"))
     except (ValueError, KeyError):
         return None
-    return q.clist(ks)
+    return f"(let e := {env} in (e, {q.clist(ks)}))"
 
 
 # ---------------------------------------------------------------------------
@@ -562,7 +604,10 @@ def oracle(scn, res):
             if t["expire"] != exp_time(scn, d, i[1]) or t["expire_exact"] is False:
                 return (f"{tag}: expire_time of {list(i)} is {t['expire']} s after the initial cycle point, "
                         f"the offset {scn['expire'].get(i[1])!r} gives {exp_time(scn, d, i[1])}")
-            want = [[20000101 + cd, c] for cd, c in ref_children(scn, d, i[1], "expired")]
+            if t["comp"] != info.get(i[1], {}).get("comp"):
+                return (f"{tag}: completion expression of {list(i)} is {t['comp']!r}, its task definition gives "
+                        f"{info.get(i[1], {}).get('comp')!r}")
+            want = [[20000101 + cd, c] for cd, c in ref_children(scn, d, i[1], "expired", clip=False)]
             if t["gkids"] != want:
                 return f"{tag}: graph children of {list(i)}:expired are {t['gkids']}, the graph gives {want}"
         expired = [tuple(e[1]) for e in it["evs"] if e[0] == "expired"]
@@ -616,7 +661,8 @@ def oracle(scn, res):
             want = set(ref_children(scn, d, i[1], "expired")) if (t["has_flow"] and not t["flow_wait"]) else set()
             got_spawn = {(e[2][0] - 20000101, e[2][1]) for e in it["evs"] if e[0] == "spawn" and tuple(e[1]) == i}
             got_sat = {(e[2][0] - 20000101, e[2][1]) for e in it["evs"] if e[0] == "sat" and tuple(e[1]) == i}
-            got_none = {(e[2][0] - 20000101, e[2][1]) for e in it["evs"] if e[0] == "none" and tuple(e[1]) == i}
+            got_none = {(e[2][0] - 20000101, e[2][1]) for e in it["evs"] if e[0] == "none" and tuple(e[1]) == i
+                        and e[2][0] - 20000101 < scn["ncycles"]}
             if not (got_spawn | got_sat | got_none) <= want:
                 return (f"{tag}: the expired output of {list(i)} reached {sorted((got_spawn | got_sat | got_none) - want)}, "
                         f"not among its expire children {sorted(want)}")
@@ -658,9 +704,10 @@ def oracle(scn, res):
             last[tuple(h[2])] = "manual"
         elif kind == "status":
             i = tuple(h[2])
-            if h[3] == "expired" and h[4] not in ("expired",) and last.get(i) == "expired":
-                # an expired task can only be revived by a manual trigger
-                return f"expired task {list(i)} changed status to {h[4]} without a manual trigger (tick {h[0]})"
+            if h[3] == "expired" and h[4] != "expired" and last.get(i) == "expired":
+                if h[4] == "preparing":
+                    return f"expired task {list(i)} went to preparing without a manual trigger (tick {h[0]})"
+                last[i] = "revived"      # a late job message: the task is not expired any more
         elif kind == "submit":
             i = tuple(h[2])
             if last.get(i) == "expired":
@@ -722,10 +769,10 @@ class ExpireStream(Stream):
     check_fn = "Expire.check_case"
     show_fn = "Expire.model_out"
     needs_scratch_home = True
-    n_hashseeds = 12
-    shard_size = 6
+    n_hashseeds = 16
+    shard_size = 40
     impl_timeout = 900
-    n_quick, n_thorough_wf = 72, 40
+    n_quick, n_thorough_wf = 30, 24
     rule = ("generated date-cycling workflows (P1D from 2000-01-01, 2-4 cycles, 2-5 tasks, 1-3 clock-expire tasks with "
             "offsets from {none, PT0S, PT30M, PT1H, PT6H, P1D, P1DT12H, -PT1H, -PT6H, -P1D}, :expired? / :started / "
             ":failed? / success edges, same-cycle and [-P1D], AND of several lines, runahead P0-P3, queue limit 1-2, "
@@ -736,7 +783,7 @@ class ExpireStream(Stream):
             "non-trivial = distinct (workflow, clock, commands) with at least one expiry")
 
     def corpus(self):
-        return [witness_successor(), witness_basic()]
+        return [witness_successor(), witness_basic(), witness_edges()]
 
     def gen(self, rng, tier):
         r = random.Random(rng.randrange(1 << 30))
@@ -751,7 +798,8 @@ class ExpireStream(Stream):
                 for delta in (-1, 0, 1):
                     s = json.loads(json.dumps(wf))
                     s["clock"] = gen_clock(random.Random(tgt_seed), s, kind="cross", k=k, delta=delta)
-                    s["ops"] = ops
+                    s["ops"] = list(ops)
+                    keep_alive(s, k + 4)
                     out.append(finish(s))
         return out
 
@@ -801,7 +849,10 @@ class ExpireStream(Stream):
     def classify(self, c, r, failure):
         if failure.startswith(SIG_SUCC):
             return SIG_SUCC
-        return "expire:" + failure.split(":", 1)[-1].strip()[:70]
+        txt = re.sub(r"^iteration \d+ \(clock -?\d+\)(, [a-z _]+)?: ", "", failure)
+        txt = re.sub(r"\[\d+, '\w+'\]", "<inst>", txt)
+        txt = re.sub(r"-?\d+", "N", txt)
+        return "expire:" + txt.strip()[:70]
 
     def shrink(self, c):
         for i in range(len(c["ops"])):
@@ -823,9 +874,54 @@ class ExpireStream(Stream):
 STREAMS = [ExpireStream()]
 
 META = {
-    "level_text": "see DESIGN.md 5/C32",
-    "level_note": "",
-    "technique": "Coq proof over an executable model of the expiry pass and the submission pipeline + per-iteration in-Coq "
-                 "comparison with real scheduler runs under a virtual clock + history oracle",
+    "level_text": (
+        "Coq theorems over Model/Expire.v, an executable model of TaskPool.clock_expire_tasks / TaskProxy.clock_expire / "
+        "state_reset(expired) / process_message(expired) / spawn_on_output / remove_if_complete / remove and of the operations that "
+        "decide who is queued, released and submitted (queue_if_ready, queue_or_trigger, hold/release, release_tasks_to_run), for ALL "
+        "pools, clock values, graphs and operation sequences: (a) c32_expires_iff_eligible -- a task expires in a pass IF AND ONLY IF "
+        "it is in the pool, not manually triggered, waiting, has an expiry time and that time is <= now (the code expires at equality; "
+        "held, queued and runahead-limited waiting tasks are not exempt), in pool order; (e) c32_ineligible_tasks_untouched / "
+        "c32_non_waiting_untouched / c32_pool_after_pass -- every other task, in particular every task that is not waiting, comes out "
+        "of the pass unchanged, and the pool afterwards holds nothing but untouched tasks, just-expired tasks and spawned expire "
+        "children; c32_expired_task_fate -- removed iff the completion expression holds with `expired`; (d) "
+        "c32_expired_output_reaches_exactly_expire_children (iff, per expiring instance with a flow and no flow-wait: each :expired "
+        "child is spawned, or already pooled, or already finished) + c32_spawned_are_expire_children (every spawn of the pass is an "
+        ":expired child of an instance that expired in this pass: no other output's children) + c32_no_flow_no_children; (b) "
+        "c32_not_twice_in_a_row (any two passes, clock monotone or not) and c32_expires_at_most_once (NoDup of expiry events over all "
+        "operation sequences without a manual trigger / job message); (c) c32_invariant + c32_expired_never_submitted + "
+        "c32_expired_is_stable -- the invariant `unique ids; tasks_to_trigger_now / waiting_on_job_prep only for manual tasks; an "
+        "expired task is in no queue, not flagged queued, not awaiting job preparation` is preserved by every operation, every job "
+        "submission is for a task that is not expired, and an expired task stays expired until a manual trigger, a job message or its "
+        "removal. The clause one would add -- a runahead-limited parentless task that expires hands over to its next instance as on "
+        "every other removal (c32_remove_spawns_successor) -- is REFUTED in the faithful model "
+        "(c32_expiry_keeps_parentless_chain_refuted, c32_pass_never_spawns_successor) and on the real scheduler: genuine defect, known "
+        "finding, fix proposed. Tie: generated date-cycling workflows with positive / negative / zero clock-expire offsets run on the "
+        "real Scheduler in-process under a virtual clock chosen per main-loop iteration (stepping across every expiry time at every "
+        "iteration, offsets -1 s / 0 / +1 s); each iteration is a checkpoint: the real pool before the pass, the real expiry / spawn / "
+        "removal events, the pool after the pass, the ids released by the queues, the jobs submitted and the pool after "
+        "release_tasks_to_run are compared inside Coq with what the model computes from the same pool and clock, and the theorem "
+        "hypotheses (wf_state, pool_ok) are evaluated on every real snapshot. Oracle (implementation only, reference semantics of the "
+        "generated graph): every expiry was waiting / not manual / past its time, every eligible task expired, nothing else changed, "
+        "children reached = graph children, expiry times = cycle point + offset, no job after expiry without a manual trigger, at most "
+        "one expiry per instance, nothing expired is queued / awaiting preparation."),
+    "level_note": (
+        "Model/Expire.v is a hand model. Graph children, parentless successors and expiry times given to it are computed by "
+        "vp/props/c32.py from the generated workflow (not read from cylc) and cross-checked by the oracle against the implementation's "
+        "graph_children / expire_time / next_point_parentless; completion expressions are read from the loaded task definitions. "
+        "The step system abstracts prerequisites (`ready` is an input), queue limits (which queued tasks are released is an input, "
+        "guarded by `in a queue and not held`) and jobs (status changes by messages are inputs that cannot produce `expired` or "
+        "`preparing`); job preparation never stays pending. Only the pass and the release/submit step are compared step by step with the "
+        "real code; the other operations of the step system (queue_if_ready, queue_or_trigger, hold/release, messages, spawn, remove) "
+        "are tied through their invariant, which is evaluated on all three real snapshots of every iteration. (b) at-most-once is proved for operation sequences without manual trigger "
+        "/ job message (a re-triggered task may legitimately expire again after a retry). Not modelled, not generated: suicide "
+        "triggers, xtriggers / sequential xtriggers, reload, restart, `cylc set --out=expired`, flow merges (iterations in which flows "
+        "merge are checked by the oracle only), cylc 7 compatibility mode, other calendars / time zones (Gregorian, "
+        "UTC only). Trusted: Coq kernel+VM; the in-process driver vp/sched/driver.py (fake process pool); "
+        "vp/sched/expire_ext.py (virtual clock = the `time` name of cylc.flow.task_proxy; wrappers around clock_expire_tasks, "
+        "release_tasks_to_run, spawn_on_output, remove_if_complete). One open finding is reported as KNOWN-FINDING and does not fail "
+        "the check: a runahead-limited parentless task that clock-expires never gets its next instance spawned."),
+    "technique": "Coq proof over an executable model of the expiry pass and the submission pipeline (iff characterisation, "
+                 "invariants over all operation sequences, refutation witness) + per-iteration in-Coq comparison with real scheduler "
+                 "runs under a virtual clock + history oracle",
     "design_ref": "5/C32",
 }
